@@ -119,6 +119,13 @@ class C06(Prop):
                 [0, "delbucket", "b0"], [0, "insert", "b1", storegen.rand_ev(rng)], [0, "read", "b1"],
                 [0, "update", "b1", {"client": "c2", "data": "{\"k\": [2]}"}], [0, "read", "b1"], [0, "delbucket", "b1"]]
         directed.append({"lazy": True, "ops": calm})
+        # (d) buckets created with a name and a data dict (through the Datastore object, as an application does) while writes
+        # are buffered: the bucket appears whole or not at all
+        withdata = [[0, "create", "b0", {**m0, "name": "nm", "data": json.dumps({"k": [1, {"z": 2}]})}], [0, "insert", "b0", storegen.rand_ev(rng)],
+                    [1000, "insert", "b0", storegen.rand_ev(rng)],
+                    [0, "create", "b1", {**storegen.mk_meta(rng, "b1"), "name": "other", "data": json.dumps({"a": {"b": "c"}})}],
+                    [0, "insert", "b1", storegen.rand_ev(rng)], [0, "update", "b0", {"data": json.dumps({"k": 2})}], [0, "insert", "b0", storegen.rand_ev(rng)]]
+        directed.append({"lazy": True, "ops": withdata})
         for i in range(ctx.pick(2, 12) + len(directed)):
             h = directed[i] if i < len(directed) else commit_history(rng, rng.randint(12, 30) if i % 2 else 60, heavy_delete=(i % 3 == 0))
             for be in ("sqlite", "peewee"):
